@@ -42,3 +42,14 @@ package zenodb
 //@   modifies *
 //@   capture sameLayout Bool = result 0 of call core.Fields).Equals
 //@   at call dyn:onRow assert raw_only_if_same_layout: len(callarg2) == 0 || sameLayout
+
+// C02: on open, the resume offsets are the per-source maximum (Advance) of the newest readable filestore's header
+// offsets and the offset file's offsets - never the offset file alone when a filestore was selected.
+//@ func (*table).openRowStore
+//@   modifies *
+//@   capture walOffs Int = result 0 of call readWALOffsets
+//@   capture walErr Iface = result 2 of call readWALOffsets
+//@   capture adv Int = result 0 of call OffsetsBySource).Advance
+//@   at call OffsetsBySource).Advance assert advance_from_file_header: callarg0 == walOffs && walErr == nil
+//@   ensures filestore_offsets_win: result2 == nil && existingFileName != "" && walErr == nil ==> result1 == adv
+//@   loop 1 invariant no_file_yet: existingFileName == "" || walErr != nil
